@@ -108,3 +108,7 @@ Definition in_memory (s : bstate) : Prop := exists d, s = SBytes d.
    in-memory backend and an empty non-nil slice on the stream backends) *)
 Definition obs_eqv (a b : obs) : Prop :=
   a = b \/ exists n1 n2 l, a = VData n1 l /\ b = VData n2 l.
+
+(* the two backends that hold the data in memory: binaryReaderBytes and binaryReaderMmap (open or closed) *)
+Definition mem_state (s : bstate) : Prop :=
+  match s with SBytes _ | SMmap _ => True | _ => False end.
